@@ -1,0 +1,29 @@
+//go:build verif
+
+package schnorrlike
+
+// Contracts for the deductive checker in /verif (comment-only; compiled only under the verif tag).
+// Group elements GE are bound to the abstract abelian group with scalar action ("group").
+
+// Generic Schnorr verification accepts only if: the key is present and not the identity; R is a non-identity
+// torsion-free point and s is non-zero; and s*G == R + e*P (R - e*P for the negative-response variants), where in
+// the standard mode (no challenge key configured) the challenge e is RECOMPUTED from (R, P, message) -- a
+// challenge carried inside the signature is only ever used in partial-signature mode.
+//@ func (*VerifierTrait).Verify
+//@   property C15, C01
+//@   bind GE group
+//@   purefn
+//@   let cpk = ite(v.ChallengePublicKey != nil, v.ChallengePublicKey.V, publicKey.V)
+//@   let e = ite(v.ChallengePublicKey != nil && !utils.IsNil(sigma.E), sigma.E, res(v.V.ComputeChallenge(sigma.R, cpk, message), 0))
+//@   ensures result == nil ==> publicKey != nil && publicKey.V != gzero() && sigma != nil
+//@   ensures result == nil ==> !sigma.S.IsZero() && sigma.R != gzero() && sigma.R.IsTorsionFree()
+//@   ensures (result == nil && !v.ResponseOperatorIsNegative) ==> gsmul(sigma.S, publicKey.Group().Generator()) == gadd(sigma.R, gsmul(e, publicKey.V))
+//@   ensures (result == nil && v.ResponseOperatorIsNegative) ==> gsmul(sigma.S, publicKey.Group().Generator()) == gadd(sigma.R, gneg(gsmul(e, publicKey.V)))
+
+// Batch verification accepts only if every triple verifies.
+//@ func (*VerifierTrait).BatchVerify
+//@   property C15
+//@   bind GE group
+//@   ensures result == nil ==> len(sigs) == len(publicKeys) && len(sigs) == len(messages) && (forall t int :: 0 <= t && t < len(sigs) ==> v.Verify(sigs[t], publicKeys[t], messages[t]) == nil)
+//@   loop range(sigs)
+//@     invariant forall t int :: 0 <= t && t < i ==> v.Verify(sigs[t], publicKeys[t], messages[t]) == nil
